@@ -1671,7 +1671,7 @@ class _Normalizer:
         """``@property def is_idle(self): return <expr>`` that did not exist when the rule instances were confirmed, has no
         setter, and whose name means nothing else anywhere in the package (no other class defines it, nothing stores to it):
         ``x.is_idle`` can only be this property, and reads as ``<expr>`` with ``self`` := ``x``."""
-        from .oracles.inventory import FUNCTIONS
+        from .oracles.inventory import FUNCTIONS, INSTANCE_ATTRS
         self.props: Dict[str, Tuple[object, ast.expr]] = {}
         self.class_props: Dict[str, Dict[str, Tuple[object, ast.expr]]] = {}
         defs: Dict[str, List[object]] = {}
@@ -1689,12 +1689,16 @@ class _Normalizer:
                     # the store -- and other classes' attributes are the named ones collected here)
                     if isinstance(n.args[1], ast.Constant):
                         stored.add(n.args[1].value)
+        from . import sym as _sym
+        nt_fields = {f for fs in _sym.NAMEDTUPLE_FIELDS.values() for f in fs}
         for m in self.repo.modules.values():
             for c in m.classes.values():
                 for name, fi in c.methods.items():
                     if fi.kind != 'property' or fi.key in FUNCTIONS or name in c.setters:
                         continue
-                    unique = name not in stored and len(defs.get(name, [])) == 1
+                    if '%s.%s' % (c.key, name) in INSTANCE_ATTRS:
+                        continue      # an attribute of the pinned tree that became computed: the rules read it by its name
+                    unique = name not in stored and len(defs.get(name, [])) == 1 and name not in nt_fields
                     if len(fi.node.decorator_list) != 1 or len(fi.node.args.args) != 1:
                         continue
                     body = _body(fi.node)
@@ -1839,6 +1843,8 @@ class _Normalizer:
                 if hit is None or hit[0].node is fnode:
                     return node
                 fi, e = hit
+                if fi.key in active:
+                    return node      # the property's own expansion (``self._info.code`` inside ``code``): a field of that name
                 slf = fi.node.args.args[0].arg
                 uses = sum(1 for x in ast.walk(e) if isinstance(x, ast.Name) and x.id == slf)
                 if (uses > 1 and not _is_simple(node.value)) or not portable(fi, e):
@@ -1859,14 +1865,17 @@ class _Normalizer:
                 me.stats['inlined_properties'] = me.stats.get('inlined_properties', 0) + 1
                 me.inlined.append(('%s:%s' % (me.m.name, fnode.name), fi.key, id(fnode)))
                 # a property written in terms of other new properties: those read as their expressions too
-                if depth[0] < 6:
+                if depth[0] < 6 and fi.key not in active:
                     depth[0] += 1
+                    active.add(fi.key)
                     try:
                         new = self.visit(new)
                     finally:
                         depth[0] -= 1
+                        active.discard(fi.key)
                 return new
         depth = [0]
+        active = set()
         T().visit(fnode)
         ast.fix_missing_locations(fnode)
 
